@@ -51,14 +51,18 @@ func createSegment(name string, opt Options) (err error) {
 			}
 		}
 	}()
+	verifPoint("create:created", name)
 	size := int64(opt.SegmentSize)
 	if err = f.Truncate(size); err != nil {
 		return
 	}
+	verifPoint("create:truncated", name, opt.SegmentSize)
 	if _, err = f.WriteAt(make([]byte, 16), size-16); err != nil {
 		return
 	}
+	verifPoint("create:zeroed", name)
 	err = f.Sync()
+	verifPoint("create:synced", name)
 	return
 }
 
